@@ -24,7 +24,9 @@ class CustomScalar:
         if not _json_kind(v) or (isinstance(v, str) and v == "BAD"):
             raise ValueError("custom scalar refuses value")
         return v
-    def coerce_output(self, v): return self._ok(v)
+    def coerce_output(self, v):
+        if isinstance(v, str) and v == "NULLME": return None
+        return self._ok(v)
     def coerce_input(self, v): return self._ok(v)
     def parse_literal(self, ast):
         from tartiflette.constants import UNDEFINED_VALUE
